@@ -1087,5 +1087,67 @@ class EndblockStream(Stream):
         return [expected_tokens(case["toks"]), "ok" if "ok" in obs else obs["err"]]
 
 
+class PageStream(Stream):
+    """Several chains rendered one after the other by ONE page (`{% include A %}|{% include B %}`): every chain is
+    still its own root with its own most-derived blocks, i.e. the page renders the concatenation of what each template
+    renders alone (metamorphic; engine only). The templates come from the `pool` stream's chains, so the same block
+    names occur in different chains and in bare (non-extending) templates. Added after seeded change C18-3 (the
+    per-render block-stack table was cleared at the wrong moment, so a bare base rendered after a chain showed the
+    chain's overrides) was missed: every other stream renders exactly one template per render."""
+
+    name = "page"
+    has_model = False
+    parallel = True
+
+    def cases(self, ctx):
+        rng = ctx.rng_for("page")
+        pool = PoolStream().cases(ctx)
+        out = []
+        for _ in range(ctx.scale(500, 5000)):
+            a = rng.choice(pool)
+            tpls = dict((n, t) for n, t in a["templates"])
+            names = sorted(tpls)
+            # the page includes 2-3 templates of one chain family in any order, bare roots included
+            order = [rng.choice(names) for _ in range(rng.range(2, 3))]
+            out.append({"templates": a["templates"], "order": order, "data": a["data"]})
+        return out
+
+    def impl(self, case):
+        from liquid import Environment
+        from liquid.builtin import DictLoader
+
+        sources = {}
+        for name, tops in case["templates"]:
+            sources.setdefault(name, src_items(tops))
+        data = dict((k, v) for k, v in case["data"])
+
+        def r(src):
+            env = Environment(extra=True, loader=DictLoader(sources))
+            try:
+                return {"ok": env.from_string(src).render(**data)}
+            except Exception as e:  # noqa: BLE001
+                return {"err": type(e).__name__}
+
+        singles = [r("{% include '" + n + "' %}") for n in case["order"]]
+        page = r("|".join("{% include '" + n + "' %}" for n in case["order"]))
+        return {"singles": singles, "page": page}
+
+    def oracle(self, case, obs):
+        if all("ok" in s for s in obs["singles"]):
+            exp = "|".join(s["ok"] for s in obs["singles"])
+            if obs["page"].get("ok") != exp:
+                return ("page|chains-interfere", f"page of {case['order']} rendered {obs['page']!r}; alone they render {exp!r}")
+        return None
+
+    def nontrivial(self, case, obs):
+        return all("ok" in s for s in obs["singles"]) and len(set(case["order"])) > 1
+
+    def tags(self, case, obs):
+        return ["all-ok" if all("ok" in s for s in obs["singles"]) else "some-error"]
+
+    def shrink_candidates(self, case):
+        return []
+
+
 def streams(ctx):
-    return [PoolStream(), GraphStream(), ChainStream(), SpecStream(), SynStream(), AsyncStream(), AssignStream(), DeepStream(), EndblockStream()]
+    return [PageStream(), PoolStream(), GraphStream(), ChainStream(), SpecStream(), SynStream(), AsyncStream(), AssignStream(), DeepStream(), EndblockStream()]
